@@ -444,7 +444,9 @@ theorem matmul_core (right adjoint : Bool) (ish msh : List Int) (mat : List α) 
       IsAdj (shapeProd s.osh).toNat (shapeProd ish).toNat s.E
         (compE ((allIdx m.osh).map fun j =>
           ((fl (removeAxes (matmulSumAxes s.osh ish msh) m.osh) (removeAxes (matmulSumAxes s.osh ish msh) j),
-            fl m.osh j, (1 : α)) : Ent α)) m.E) := by
+            fl m.osh j, (1 : α)) : Ent α)) m.E) ∧
+      (∀ d, d < (C09.expandShapes ish msh).1.length - 2 →
+        getI s.osh d = max (getI (C09.expandShapes ish msh).1 d) (getI (C09.expandShapes ish msh).2 d)) := by
   have hg : ¬ (ish.length < 2 ∨ msh.length < 2) := by
     intro h; rw [matmulSem_eq_C] at hs; unfold matmulSemC at hs; rw [if_pos h] at hs; cases hs
   obtain ⟨hlie, hlme⟩ := expand_len ish msh
@@ -533,7 +535,15 @@ theorem matmul_core (right adjoint : Bool) (ish msh : List Int) (mat : List α) 
     refine ⟨?_, fl_lt (mem_allIdx.mp hj)⟩
     have := fl_lt (hidx j hj).1
     rwa [hprod] at this
-  refine ⟨hprod, saOf_norm_le ib mb ob _ (by simp [hol]), trivial, trivial, hE, hME, hSE, ?_⟩
+  have hmax : ∀ d, d < (ib ++ [I2, I1]).length - 2 →
+      getI (mmOsh right adjoint ob I2 I1 M2 M1) d = max (getI (ib ++ [I2, I1]) d) (getI (mb ++ [M2, M1]) d) := by
+    intro d hd
+    rw [len_sub2] at hd
+    unfold mmOsh
+    rw [getI_append_left _ _ _ (hol ▸ hd), getI_append_left _ _ _ hd, getI_append_left _ _ _ (hl ▸ hd)]
+    exact ((bshape_spec hb hl.symm).2 d hd).2
+  rw [hie, hme]
+  refine ⟨hprod, saOf_norm_le ib mb ob _ (by simp [hol]), trivial, trivial, hE, hME, hSE, ?_, hmax⟩
   -- the permutation
   apply isAdj_of_perm _ _ _ _ hE
   unfold mmE
@@ -602,7 +612,7 @@ theorem matmul_leaf_adjoint (ish msh : List Int) (mat : List α) (adjoint : Bool
   | some s0 =>
   simp only [hm, Option.map_some, Option.some.injEq] at hs
   subst hs
-  obtain ⟨m, hM, hprod, hnorm, hmi, hsi, hE, hME, hSE, hadj⟩ := matmul_core false adjoint ish msh mat hv s0 hm
+  obtain ⟨m, hM, hprod, hnorm, hmi, hsi, hE, hME, hSE, hadj, _⟩ := matmul_core false adjoint ish msh mat hv s0 hm
   have hden : denote star ofRat (adj star (.leaf (.matmul ish msh mat adjoint))) = some ⟨ish, s0.osh,
       compE (inRangeE (shapeProd ish).toNat (shapeProd ish).toNat (idE (shapeProd ish).toNat))
         (compE (inRangeE (shapeProd ish).toNat (shapeProd m.osh).toNat
@@ -634,7 +644,7 @@ theorem rmatmul_leaf_adjoint (ish msh : List Int) (mat : List α) (adjoint : Boo
   | some s0 =>
   simp only [hm, Option.map_some, Option.some.injEq] at hs
   subst hs
-  obtain ⟨m, hM, hprod, hnorm, hmi, hsi, hE, hME, hSE, hadj⟩ := matmul_core true adjoint ish msh mat hv s0 hm
+  obtain ⟨m, hM, hprod, hnorm, hmi, hsi, hE, hME, hSE, hadj, _⟩ := matmul_core true adjoint ish msh mat hv s0 hm
   have hden : denote star ofRat (adj star (.leaf (.rmatmul ish msh mat adjoint))) = some ⟨ish, s0.osh,
       compE (inRangeE (shapeProd ish).toNat (shapeProd ish).toNat (idE (shapeProd ish).toNat))
         (compE (inRangeE (shapeProd ish).toNat (shapeProd m.osh).toNat
